@@ -213,6 +213,10 @@ func runC19(c *mon.Ctx) {
 					fail("no-encryption-methods", "%s lists no EncryptionMethod", name)
 				}
 				for _, alg := range methods {
+					if !sim.KnownDataAlg(alg) {
+						fail("listed-method-unknown", "%s lists encryption method %q, which is not an XML-Enc block algorithm the harness knows", name, alg)
+						continue
+					}
 					g := GenGenuine(r, w, GenOpts{MaxAssertions: 1, ForcePlace: "assert"})
 					a := g.Rec.Assertions[0]
 					a.Sig = sim.DefaultSig(signer.Key, signer)
